@@ -1,0 +1,13 @@
+//go:build verif
+
+package openapi3gen
+
+import "reflect"
+
+// VerifResetTypeInfos empties the package-level type information cache, so that the verification
+// harness (build tag `verif` only) can start concurrent generations from a cold cache again.
+func VerifResetTypeInfos() {
+	typeInfosMutex.Lock()
+	typeInfos = map[reflect.Type]*theTypeInfo{}
+	typeInfosMutex.Unlock()
+}
